@@ -209,7 +209,7 @@ fault_st = st.one_of(st.tuples(st.just("fail"), I), st.tuples(st.just("killstep"
 def case_st(quick):
     return st.fixed_dictionaries({
         "model": projgen.model_st(2, 5 if quick else 6, richness=1),
-        "edits": st.lists(projgen.edit_st, min_size=1, max_size=3),
+        "edits": st.lists(projgen.build_edit_st, min_size=1, max_size=3),
         "mode": st.sampled_from(["dev", "dev", "build"]),
         "force": st.booleans(),
         "faults": st.lists(fault_st, min_size=1, max_size=2),
